@@ -109,6 +109,8 @@ func evaluate(c Case) verdict {
 		return evalParse(c)
 	case "ParseXOnlyPubkey":
 		return evalParseXOnly(c)
+	case "volume:schnorr", "volume:ecdsa":
+		return evalVolume(c)
 	case "sign:ecdsa-random", "sign:ecdsa-rfc6979", "sign:ecdsa-nonce", "sign:schnorr", "recover":
 		return evalSigner(c)
 	}
@@ -202,6 +204,8 @@ func main() {
 	genSchnorr(r.Thorough(), emit)
 	genP2C(r.Thorough(), emit)
 	genParse(r.Thorough(), emit)
+	genXgeN(emit)
+	genVolume(r.Thorough(), emit)
 	nVerify := len(all)
 	fmt.Fprintf(os.Stderr, "generated %d verification cases (%.1fs)\n", nVerify, time.Since(t0).Seconds())
 	run(all)
